@@ -20,18 +20,18 @@ DRIVER = ('vf.ref.builder_model', 'driver')
 ASSUMPTIONS = [
     '50-point phases (step fraction 0.02); shipped sample performance model and a copy with fuel flow x1.12; harness airports file adds one airport above cruise level',
     'builders: no iteration, iteration (5, 1e-2), (50, 1e-4), (1, 1e-6), iteration with a low fuel heating value (negative first residual), weather, weather+iteration',
-    'events: three valid missions, the same missions with a second performance model (same ceiling), a valid mission with explicit starting mass, unknown origin/destination, airport above cruise level, starting mass outside the envelope; weather builder: valid, missing weather file, outside weather domain',
+    'events: three valid missions, the same missions with a second performance model (same ceiling), a valid mission with explicit starting mass, unknown origin/destination, airport above cruise level, starting mass outside the envelope; weather builder: valid, missing weather file, outside weather domain, and rejections at the other stages (unknown airport, airport above cruise level, starting mass outside the envelope) on a day that has weather',
     'dedup key = fingerprint of vars(builder) after the history',
     'tolerance staircase: mass_iter_reltol placed just below / above / 1 % below every residual the iteration itself produces (first 3 stairs quick, 5 thorough), with the iteration cap one short of / far above the iterations needed; two fuel heating values x six missions',
 ]
 PLAN = {
     # (builder, alphabet, undedup depth, bfs depth)
     'quick': [('noiter', 'plain', 2, 3), ('iter', 'plain-small', 2, 3), ('iter-one', 'plain-small', 2, 2),
-              ('iter-lowlhv', 'iter-lhv', 2, 2), ('weather', 'weather-small', 3, 0), ('noiter', 'plain-small', 3, 0),
+              ('iter-lowlhv', 'iter-lhv', 2, 2), ('weather', 'weather-small', 3, 0), ('weather', 'weather-reject', 2, 3), ('noiter', 'plain-small', 3, 0),
               ('noiter', 'two-models', 3, 0), ('iter-lowlhv-one', 'iter-lhv', 1, 0), ('iter-lowlhv-two', 'iter-lhv', 2, 0)],
     'thorough': [('noiter', 'plain', 3, 6), ('iter', 'plain', 3, 5), ('iter-tight', 'plain-small', 3, 4), ('iter-one', 'plain', 2, 4),
                  ('iter-lowlhv', 'iter-lhv', 3, 4), ('iter-lowlhv-tight', 'iter-lhv', 2, 3), ('weather', 'weather', 3, 4),
-                 ('weather-iter', 'weather-small', 2, 0), ('noiter', 'plain-small', 4, 0), ('noiter', 'two-models', 4, 0),
+                 ('weather-iter', 'weather-small', 2, 0), ('weather', 'weather-reject', 3, 4), ('weather-iter', 'weather-reject', 2, 0), ('noiter', 'plain-small', 4, 0), ('noiter', 'two-models', 4, 0),
                  ('iter', 'two-models', 3, 0), ('iter-lowlhv-one', 'iter-lhv', 2, 0), ('iter-lowlhv-two', 'iter-lhv', 3, 0)],
 }
 
